@@ -48,6 +48,9 @@ var c36Pinned = []c36PinnedCase{
 	{id: c36FEarlyYear, what: "DATE/DATETIME values with a year below 1000 are written without zero padding ('1-01-01') and rejected on load",
 		build:  "CREATE TABLE t (pk int primary key, d date, dt datetime(6));\nINSERT INTO t VALUES (1, '0001-01-01', '0001-01-01 00:00:01.999999'), (2, '0999-12-31', '1000-01-01 00:00:00');\n",
 		tables: map[string]string{"t": "pk, CAST(d AS CHAR), CAST(dt AS CHAR)"}},
+	{id: c36FFloatMax, what: "the largest FLOAT (float32) value is written as 3.4028235e+38, which the loader rejects as out of range",
+		build:  "CREATE TABLE t (pk int primary key, f float);\nINSERT INTO t VALUES (1, 3.4028234e38), (2, -3.4028234e38), (3, 1.5);\n",
+		tables: map[string]string{"t": "pk, CAST(f AS CHAR)"}},
 }
 
 func (p c36PinnedCase) fingerprint() (string, []string) {
